@@ -317,7 +317,7 @@ func mutate(frames [][]byte, n int, rng *rand.Rand) ([]byte, []string) {
 	for i := range frames {
 		fs[i] = append([]byte(nil), frames[i]...)
 	}
-	var desc []string
+	desc := []string{}
 	cut := -1
 	// frames[0] is the preface, frames[1] the SETTINGS frame: leave the preface alone most of the time
 	pick := func() int {
